@@ -5,6 +5,8 @@ import (
 	"fmt"
 	"io"
 	"os"
+	"sort"
+	"strings"
 	"testing"
 	"testing/synctest"
 	"time"
@@ -45,6 +47,7 @@ type Result struct {
 	HarnessErr string         `json:"harnessErr,omitempty"`
 	choices    []int
 	callLog    []string
+	summary    map[string]string
 }
 
 // Seed inserts an object directly into the API server (initial state).
@@ -77,8 +80,41 @@ func (w *World) seedObjects() {
 	}
 }
 
-// RunPlan executes one plan in a fresh bubble.
+// RunPlan executes one plan. For the differential property C20 a fault-free
+// twin of the same plan is executed first and the observable outcomes compared.
 func RunPlan(t *testing.T, plan *Plan, ch *Choices, traceAll bool) (res *Result) {
+	if plan.Property != "C20" || plan.Twin {
+		return runPlanOnce(t, plan, ch, traceAll)
+	}
+	twin := *plan
+	twin.Twin = true
+	twin.Faults, twin.Pinned, twin.Crashes, twin.Lags, twin.Relists = nil, nil, nil, nil, nil
+	twin.Sched = SchedOpts{Mode: "fair", APILatencyUs: plan.Sched.APILatencyUs}
+	twin.Proc.ReadYield = false
+	twin.Proc.ResyncSec = 0
+	tres := runPlanOnce(t, &twin, NewChoices(1), false)
+	res = runPlanOnce(t, plan, ch, traceAll)
+	if tres.HarnessErr != "" {
+		res.HarnessErr = "twin: " + tres.HarnessErr
+		return res
+	}
+	if len(tres.Violations) > 0 {
+		// the fault-free twin itself misbehaved: report it (it is a violation of C20's safety clause too)
+		v := tres.Violations[0]
+		v.Msg = "fault-free twin: " + v.Msg
+		res.Violations = append([]Violation{v}, res.Violations...)
+		return res
+	}
+	res.Stats["mon.c20.compared"]++
+	if len(res.Violations) == 0 && res.summary != nil && tres.summary != nil {
+		if diff := diffSummaries(tres.summary, res.summary); diff != "" {
+			res.Violations = append(res.Violations, Violation{Monitor: "C20/diverged", Step: res.Steps, Msg: "outcome differs from the fault-free run of the same workload: " + diff})
+		}
+	}
+	return res
+}
+
+func runPlanOnce(t *testing.T, plan *Plan, ch *Choices, traceAll bool) (res *Result) {
 	res = &Result{Property: plan.Property, Preset: plan.Preset, Seed: plan.Seed}
 	defer func() {
 		if r := recover(); r != nil {
@@ -138,6 +174,9 @@ func runInBubble(plan *Plan, ch *Choices, traceAll bool, res *Result) {
 	res.choices = ch.Rec
 	res.APICalls = s.callN
 	res.NonTrivial = preset.nonTrivial(w)
+	if plan.Property == "C20" && len(s.Viol) == 0 {
+		res.summary = summarize(w)
+	}
 	if len(s.Viol) > 0 || traceAll {
 		res.Trace = s.Trace()
 	}
@@ -157,3 +196,79 @@ type presetDef struct {
 var presets = map[string]*presetDef{}
 
 var _ = execution.Job{}
+
+// summarize extracts the observable outcome of a run, ignoring time.
+func summarize(w *World) map[string]string {
+	out := map[string]string{}
+	pods := map[string][]string{}
+	for _, ev := range w.API.log[ResPods] {
+		if ev.Type == "ADDED" {
+			if ref := metav1.GetControllerOf(accessor(ev.Obj)); ref != nil && ref.Kind == "Job" {
+				pods[ref.Name] = append(pods[ref.Name], accessor(ev.Obj).GetName())
+			}
+		}
+	}
+	last := map[string]*execution.Job{}
+	deletedBy := map[string]string{}
+	for _, ev := range w.API.log[ResJobs] {
+		j := ev.Obj.(*execution.Job)
+		if ev.Type == "ADDED" && last[ev.Key] != nil {
+			// same name re-created: keep both generations distinct
+			out["job-recreated "+ev.Key] = "yes"
+		}
+		last[ev.Key] = j
+		if ev.Verb == "delete" && strings.Contains(ev.Actor, "/job/") {
+			deletedBy[ev.Key] = "ttl"
+		}
+	}
+	for key, j := range last {
+		res := "unfinished:" + string(j.Status.Phase)
+		if f := j.Status.Condition.Finished; f != nil {
+			res = string(f.Result)
+		}
+		ps := append([]string{}, pods[j.Name]...)
+		sort.Strings(ps)
+		// collapse duplicates (a vanished unrecorded pod may be re-created under the same name)
+		uniq := ps[:0]
+		for i, p := range ps {
+			if i == 0 || ps[i-1] != p {
+				uniq = append(uniq, p)
+			}
+		}
+		out["job "+key] = fmt.Sprintf("result=%s ttlDeleted=%v exists=%v pods=%v", res, deletedBy[key] == "ttl", w.API.Peek(ResJobs, j.Namespace, j.Name) != nil, uniq)
+	}
+	for _, o := range w.API.ListRaw(ResJobConfigs) {
+		jc := o.(*execution.JobConfig)
+		var a, q []string
+		for _, r := range jc.Status.ActiveJobs {
+			a = append(a, r.Name)
+		}
+		for _, r := range jc.Status.QueuedJobs {
+			q = append(q, r.Name)
+		}
+		sort.Strings(a)
+		sort.Strings(q)
+		out["jobconfig "+jc.Name] = fmt.Sprintf("active=%v queued=%v", a, q)
+	}
+	return out
+}
+
+func diffSummaries(want, got map[string]string) string {
+	var diffs []string
+	keys := map[string]bool{}
+	for k := range want {
+		keys[k] = true
+	}
+	for k := range got {
+		keys[k] = true
+	}
+	for _, k := range sortedKeys(keys) {
+		if want[k] != got[k] {
+			diffs = append(diffs, fmt.Sprintf("%s: fault-free {%s} vs faulty {%s}", k, want[k], got[k]))
+		}
+	}
+	if len(diffs) > 3 {
+		diffs = append(diffs[:3], fmt.Sprintf("... and %d more", len(diffs)-3))
+	}
+	return strings.Join(diffs, "; ")
+}
